@@ -25,38 +25,22 @@ def run(model, rep):
         rep.rule(r, t)
     c02.static_tables(model, rep, 'C08')
     # ---------------- PASS
-    P = Pipeline(model)
-    mi = P.fi
-    defs = P.defs
-    srcp = mi.positional[0]
-    parses = [c for c in calls(mi.node) if isinstance(c.func, ast.Attribute) and c.func.attr == 'parse' and isinstance(c.func.value, ast.Name) and model.is_ast_alias(mi.module, c.func.value.id)]
-    if not parses:
-        raise AnalysisError('no ast.parse call in minify')
-    first = parses[0]
-    facts = P.F.facts_at(first)
-    a0 = first.args[0] if first.args else kwarg(first, 'source')
-    in_try = facts is not None and any(k.startswith('<in-try:') for (k, p) in facts)
-    cond = [k for (k, p) in (facts or ()) if not k.startswith('<')]
-    # nothing that can raise before it: only simple assignments of `x or constant`
-    before = []
-    for s in mi.node.body:
-        if s.lineno >= first.lineno:
-            break
-        if isinstance(s, ast.Expr) and isinstance(s.value, ast.Constant):
-            continue
-        ok_stmt = isinstance(s, ast.Assign) and not [c for c in ast.walk(s.value) if isinstance(c, (ast.Call, ast.Subscript, ast.Attribute, ast.BinOp))]
-        if not ok_stmt:
-            before.append(src(s)[:50])
-    # every normal return of minify is dominated by the parse (the parse cannot be skipped on some path)
-    always = all(('<did:%s>' % src(first.func), True) in f for (_r, f) in P.F.returns)
-    rep.check(isinstance(a0, ast.Name) and a0.id == srcp and defs.get(srcp) == ['<param>'] and not in_try and always, 'C08.PASS', mi.loc(first), src(first),
-              'the source argument itself is parsed, outside any try, on every path to a return', 'the interpreter\'s SyntaxError cannot reach the caller unchanged (in try: %s, parsed on every path: %s)' % (in_try, always),
-              key='C08.PASS|parse')
-    # no handler in minify swallows SyntaxError
-    for t in [n for n in walk_own(mi.node) if isinstance(n, ast.Try)]:
-        for h in t.handlers:
-            rep.violation('C08.PASS', mi.loc(h), 'except ' + (src(h.type) if h.type is not None else ''), 'minify() catches exceptions: errors for invalid input are no longer the interpreter\'s own', key='C08.PASS|handler')
-    rep.floor('C08.PASS', 1)
+    # minify() evaluated with the parser answered by the checker (pmstatic.apirun): a SyntaxError (or any other error the interpreter raises for the
+    # source) reaches the caller as it is, and the object that is parsed is the caller's source itself
+    from .. import apirun
+    mi = model.func('python_minifier.minify')
+    for exc in ('SyntaxError', 'IndentationError', 'ValueError', 'UnicodeDecodeError', 'RecursionError'):
+        r = apirun.run(model, kwargs={}, parse_raises=exc, source=b'\xffsource bytes')
+        parsed = [t for t in r.trace if t[0] == 'parse']
+        ok = r.outcome[0] == 'raise' and str(r.outcome[1]).split(':')[0].split('(')[0] == exc and len(parsed) == 1 and parsed[0][1] == b'\xffsource bytes' and \
+            not [t for t in r.trace if t[0] in ('stage', 'call')]
+        rep.check(ok, 'C08.PASS', mi.loc(), 'the parser raises %s -> minify() %s' % (exc, r.outcome), 'the same error reaches the caller, nothing else has run',
+                  'an error the interpreter raises for the source does not reach the caller unchanged (%s; parsed %r)' % (r.outcome, [t[1] for t in parsed]), key='C08.PASS|' + exc)
+    r = apirun.run(model, kwargs={}, source='text source')
+    parsed = [t for t in r.trace if t[0] == 'parse']
+    rep.check(len(parsed) == 1 and parsed[0][1] == 'text source', 'C08.PASS', mi.loc(), 'what is handed to the parser', 'the caller\'s source object itself, once',
+              'the source is transformed before it is parsed, or parsed more than once: %r' % [t[1] for t in parsed], key='C08.PASS|parse')
+    rep.floor('C08.PASS', 6)
 
     # ---------------- ERRD
     fs = 'python_minifier.f_string.'
